@@ -77,6 +77,7 @@ type region struct {
 	n    int
 	hash uint64
 	ro   bool // declared read-only by the scenario: any change is a violation even without a race
+	obj  bool // the memory of a library object (a Block, an AEAD) shared by the threads - see ShareMem
 }
 
 // Exec is the state of one execution.
@@ -97,6 +98,7 @@ type Exec struct {
 	steps          int
 	globals        []Global
 	GlobalsChanged []string
+	AtomicGlobals  map[string]bool // package-level variables that an atomic operation wrote during this execution
 	gHash          []uint64
 	mHash          []uint64
 	locs           map[int]string
@@ -161,12 +163,51 @@ func AsmEnter(name string, loc string, ptrs ...unsafe.Pointer) {
 	}
 }
 
+// AtomicWrote is called by the atomic shim right after an operation that may have written (Store, Add, Swap,
+// CompareAndSwap) the word at p. If that word lies inside a registered package-level variable (a counter, a claim flag
+// in a ring of slots), the variable's change is the effect of a synchronisation operation: its watched value is brought
+// up to date without a write event (the operation's ordering is modelled by the shim: release + acquire on the
+// address), and the variable counts as modelled when the execution ends. A plain store to the same variable is still
+// noticed by the value watch at the next point.
+func AtomicWrote(p unsafe.Pointer) {
+	e := active
+	if e == nil {
+		return
+	}
+	a := uintptr(p)
+	for i, g := range e.globals {
+		if g.Sync || !g.V.CanAddr() {
+			continue
+		}
+		base := g.V.UnsafeAddr()
+		if a >= base && a < base+g.V.Type().Size() {
+			if e.AtomicGlobals == nil {
+				e.AtomicGlobals = map[string]bool{}
+			}
+			e.AtomicGlobals[g.Name] = true
+			if g.Mutable && i < len(e.mHash) {
+				e.mHash[i] = DeepHash(g.V)
+			}
+			return
+		}
+	}
+}
+
+// PreAsm wraps the last argument of an assembly call whose argument list runs Go code: changes that code made are
+// absorbed as Go-level changes before the routine starts.
+func PreAsm[T any](v T) T {
+	if e := active; e != nil && e.cur != nil {
+		e.scanRegions("argument evaluation")
+	}
+	return v
+}
+
 func AsmExit(name string, loc string) {
 	e := active
 	if e == nil || e.cur == nil {
 		return
 	}
-	e.scanRegions(loc + " (" + name + ")")
+	e.scanRegionsAt(loc+" ("+name+")", true)
 }
 
 // ---------------------------------------------------------------- regions and globals
@@ -420,13 +461,21 @@ func (e *Exec) Share(name string, b []byte, readOnly bool) {
 }
 
 // ShareMem registers raw memory (e.g. a cipher object) as a read-only shared region.
+// An object may legitimately change while it is shared: state derived on first use under a sync.Once, a pointer
+// published atomically, the synchronisation objects embedded in it. Go-level writes to its fields are reported
+// precisely (with their happens-before clocks) by the field hooks of the instrumenter; the byte scan of the region is
+// kept for what the hooks cannot see - stores made by an assembly routine - and therefore only attributes changes that
+// appear between the entry and the exit of an assembly call. Such a store is judged by the happens-before monitor
+// against the other accesses to the object (a store under a held lock that every reader synchronises with is fine).
 func (e *Exec) ShareMem(name string, p unsafe.Pointer, n int) {
-	r := &region{name: name, ptr: p, n: n, ro: true}
+	r := &region{name: name, ptr: p, n: n, obj: true}
 	r.hash = hashBytes(p, n)
 	e.regions = append(e.regions, r)
 }
 
-func (e *Exec) scanRegions(loc string) {
+func (e *Exec) scanRegions(loc string) { e.scanRegionsAt(loc, false) }
+
+func (e *Exec) scanRegionsAt(loc string, asmExit bool) {
 	for i, g := range e.globals {
 		if !g.Mutable || g.Sync {
 			continue
@@ -440,6 +489,9 @@ func (e *Exec) scanRegions(loc string) {
 		h := hashBytes(r.ptr, r.n)
 		if h != r.hash {
 			r.hash = h
+			if r.obj && !asmExit {
+				continue // a Go-level change of a library object: the field hooks report it
+			}
 			e.log("region:"+r.name, true, loc)
 			if e.RegionWrites == nil {
 				e.RegionWrites = map[string][]string{}
